@@ -34,7 +34,7 @@ CHECKS = {
    note="Process death only (no loss of un-fsynced page cache). The hook copies the directory on the only runtime thread; a file operation already handed to the blocking pool (a vacuum unlink) may complete during the copy, entries it removes are skipped (a crash state of that unlink). The torn-write base is the live manifest length reported by the hook and must start a record, else inconclusive.", ref="6 C04"),
  "C15": dict(cat="fault_enumeration", tech="fault injection at the per-operator output hook (error|panic at chunk k / end of stream) + differential against the fault-free run",
    text="For every operator of the executed plan (observed through the hook) errors and panics are injected at first/middle/last chunk and at end-of-stream, each in its own execution; the statement must fail, or return exactly the fault-free rows; failed INSERT..SELECT / DELETE must leave the target unchanged. Memory and disk engines, current- and multi-thread runtimes.",
-   note="Not injected at the output of the INSERT/DELETE operator itself (post-commit). Benign = fired but result identical.", ref="6 C15"),
+   note="Not injected at the output of the INSERT/DELETE operator itself (post-commit). Benign = fired but result identical. Natural-fault leg (no hook): poison rows, bad CSV records, and COPY TO /dev/full (a sink that rejects every write).", ref="6 C15"),
  "C08": dict(cat="exploration", tech="schedule-perturbed concurrency runs (hook yield points, paused clock, directed gates) + boundary history oracle + online trace specification over version-manager events; thorough tier adds sanitizer overlays of the same workload (ASan + TSan), reports with risinglight frames are violations",
    text="Storage-level readers, SQL writers, drop table, and the engine's own compactor/vacuum share one database; the handler perturbs the schedule at 11 hook points. A reader's rows must equal the model for an admissible per-session prefix of writer statements; no reader may fail; a row-set may never be selected for vacuum while a pinned epoch contains it (checked on events emitted under the version manager's lock).",
    note="Current-thread runtime with paused clock: interleavings at hook points / existing awaits. Evidence reports distinct interleaving signatures and how many readers overlapped writes.", ref="6 C08"),
@@ -52,7 +52,7 @@ CHECKS = {
    note="Plans are built through the public Expr enum; hash/merge join of inner/outer type only with a true residual (executor contract). first/last are compared between agg and hashagg([]) only (same input order, no reference).", ref="6 C11"),
  "C14": dict(cat="exploration", tech="kernel-level runtime monitor against an independent scalar interpreter (arbitrary raw bits under NULL) + metamorphic row-isolation monitor over every array kernel (row in a batch vs the row alone) + optimizer on/off differential for constant folding + predicate leg vs a Python 3VL evaluator + filter-position monitor (WHERE e / WHERE NOT e vs the projected value of e); thorough tier adds sanitizer overlays of the same workload (ASan + Miri), reports with risinglight frames are violations",
    text="Array kernels (arithmetic, comparison, AND/OR/NOT, ||, unary minus, CASE selection, integer casts) over all accepted operand type combinations on batches of 0..200 rows with NULL slots carrying arbitrary raw bits are judged row by row against a scalar SQL interpreter; overflow must be an error, x/0 NULL, a row alone must equal the row in its batch. Constant expressions: folded (optimizer on) vs run-time (off).",
-   note="NaN/inf not used in comparisons of the scalar-interpreter leg. LIKE / SUBSTRING / EXTRACT / REPLACE / REPEAT / casts other than integer ones / vector distances are decided by the row-isolation leg only (batch-independence, not absolute semantics).", ref="6 C14"),
+   note="NaN/inf not used in comparisons of the scalar-interpreter leg. LIKE / SUBSTRING / EXTRACT / REPLACE / REPEAT / casts other than integer ones / vector distances are decided by the row-isolation leg only (batch-independence, not absolute semantics). DATE +/- INTERVAL of one field is judged against an independent calendar model. A kernel error on a batch in which the model lets no row fail is a violation unless it is NoBinaryOp.", ref="6 C14"),
  "C19": dict(cat="exploration", tech="law-checking runtime monitor over value pools + cross-implementation coherence through SQL on both engines; thorough tier adds sanitizer overlays of the same workload (ASan + Miri), reports with risinglight frames are violations",
    text="Equality/order/hash laws over all pairs and triples of boundary+random pools of 13 types, comparison kernels vs DataValue::cmp, print->parse through the string cast and the CSV field parser; SQL leg: ORDER BY, <, join equality, GROUP BY, DISTINCT, MIN/MAX must induce the same relations on stored values on both engines.",
    note="Calendar values from SQL-reachable ranges, plus every value the type's own parser makes from ~95 literal texts beyond the pools (rejected texts denote no value). Cells compared as printed (decimals by value, -0.0 = 0.0).", ref="6 C19"),
